@@ -432,6 +432,21 @@ func genC14(g *Gen, tier string, w *bufio.Writer) {
 			fmt.Fprintf(w, "conc %d %d %s %s %s\n", 4+g.Intn(12), g.U64()%1000000, mode, lt, v)
 		}
 	}
+	// moderate limits, short contents: the appended chunk lies in a collapsed zero subtree a few
+	// levels below the setter's anchor, and all 16 forks expand the same shared region
+	for _, c := range []struct {
+		lim uint64
+		n   int
+	}{{1024, 40}, {1024, 5}, {4096, 10}, {1 << 16, 33}, {256, 9}} {
+		lt := &Ty{Kind: KList, N: c.lim, Elem: u64}
+		v := &Val{Kind: VSeq, Seq: []*Val{}}
+		for i := 0; i < c.n; i++ {
+			v.Seq = append(v.Seq, g.RandVal(u64, 1))
+		}
+		for _, mode := range []string{"pkg+app", "own+app"} {
+			fmt.Fprintf(w, "conc 16 %d %s %s %s\n", g.U64()%1000000, mode, lt, v)
+		}
+	}
 	// forks of a type DEFAULT: default-filled vectors share one node per level (a pair whose two
 	// children are the same node), every fork hashes beside / through them
 	b32 := &Ty{Kind: KBytesN, N: 32}
